@@ -11,6 +11,7 @@ import (
 	"sort"
 	"strconv"
 	"strings"
+	"sync"
 	"time"
 
 	"github.com/paulmach/osm"
@@ -769,6 +770,12 @@ var c20Metas = []c20Meta{
 	{name: "noise", m: srv.Meta{Header: http.Header{"X-Request-Id": {"b7c3f0e2-1"}, "Vary": {"Accept-Encoding"}, "Server": {"Apache/2.4.54 (Ubuntu)"},
 		"Content-Language": {"en"}, "Strict-Transport-Security": {"max-age=31536000"}, "Etag": {`W/"5f2c"`}, "Cache-Control": {"private, max-age=0, must-revalidate"}}}},
 	{name: "chunked", m: srv.Meta{Chunked: true}},
+	// content coding the way real servers do it: only a coding the request's Accept-Encoding
+	// offers (Go's transport offers gzip by itself and undoes it), gzip or deflate (= zlib
+	// format) preferred
+	{name: "gzip-first", m: srv.Meta{Coding: "gzip-first"}},
+	{name: "deflate-first", m: srv.Meta{Coding: "deflate-first"}},
+	{name: "deflate-first+chunked", m: srv.Meta{Coding: "deflate-first", Chunked: true}},
 }
 
 func c20MetaFor(name string, n, status int) c20Meta {
@@ -862,12 +869,12 @@ func (e *c20Env) materialise(ep *c20EP, a c20Args) c20Args {
 	return a
 }
 
-func c20NewEnv(res *fw.Result, base c20Base, via string, seed uint64, noKeepAlive bool) *c20Env {
+func c20NewEnv(res *fw.Result, base c20Base, via string, seed uint64, noKeepAlive, noCompression bool) *c20Env {
 	e := &c20Env{res: res, log: &mon.Log{}, base: base, via: via, seed: seed}
 	e.api = srv.NewAPI(e.log)
 	e.lim = &srv.APILimiter{Log: e.log}
 	e.ft = &srv.FaultTripper{Log: e.log}
-	client := e.api.ClientWith(e.ft, noKeepAlive)
+	client := e.api.ClientOpts(e.ft, noKeepAlive, noCompression)
 	baseURL := ""
 	e.baseURL = "http://api.openstreetmap.org/api/0.6"
 	if !base.defHost {
@@ -1105,6 +1112,141 @@ func (e *c20Env) bigCall(ep *c20EP, a c20Args, o c20Opts, limMode string, bytes 
 	}
 }
 
+// concurrentCalls: n goroutines issue the identical call on the one datasource at the same
+// time. The server holds every request until all n are in flight (or a poll budget is used up —
+// the sleeps only give the calls time to overlap, the verdict is in the counts), then answers
+// them all with the same 200 document. Per call the statement still promises one GET after a
+// Wait and the server's elements: n GETs, the k-th GET preceded by at least k Waits, every
+// caller gets the elements. With cancelOne the first caller's context is cancelled while all
+// are in flight; the others' contexts are alive, so they must still get their elements (the
+// cancelled caller itself: only "no data next to an error").
+func (e *c20Env) concurrentCalls(ep *c20EP, argIdx, n int, cancelOne bool) {
+	res := e.res
+	e.n++
+	a := e.materialise(ep, ep.args[argIdx])
+	o := ep.opts[0]
+	r := gen.New(e.seed, fmt.Sprintf("c20/%s/%d", ep.name, e.n))
+	key := func(class string) string { return "C20/" + ep.name + "/concurrent/" + class }
+	size := 1
+	if !ep.single {
+		size = 3
+	}
+	doc, want := ep.body(r, false, a, size)
+	e.api.Respond(200, "application/xml; charset=utf-8", doc)
+	e.lim.Err = nil
+	e.ds.Limiter = e.lim
+	e.api.Take()
+	e.lim.Take()
+	e.ft.Arm("")
+	e.ft.Take()
+	e.api.Gate()
+
+	type outcome struct {
+		got any
+		err error
+	}
+	outs := make([]outcome, n)
+	ctx0, cancel0 := context.WithCancel(context.Background())
+	defer cancel0()
+	var wg sync.WaitGroup
+	done0 := make(chan struct{})
+	launch := func(i int) {
+		wg.Add(1)
+		go func() {
+			defer wg.Done()
+			ctx := context.Background()
+			if i == 0 {
+				ctx = ctx0
+				defer close(done0)
+			}
+			outs[i].got, outs[i].err = c20Invoke(ep.name, e.ds, e.pkg, ctx, a, o)
+		}()
+	}
+	arrived := func(k, polls int) {
+		for p := 0; p < polls && e.api.Arrived() < k; p++ {
+			time.Sleep(500 * time.Microsecond)
+		}
+	}
+	launch(0)
+	arrived(1, 4000) // the first caller's request is being held by the server
+	for i := 1; i < n; i++ {
+		launch(i)
+	}
+	arrived(n, 400)
+	if cancelOne {
+		cancel0()
+		<-done0
+	}
+	e.api.Release()
+	wg.Wait()
+
+	reqs, waits := e.api.Take(), e.lim.Take()
+	e.ft.Take()
+	sort.Slice(reqs, func(i, j int) bool { return reqs[i].Seq < reqs[j].Seq })
+	sort.Slice(waits, func(i, j int) bool { return waits[i] < waits[j] })
+	res.Event(int64(len(reqs) + len(waits)))
+	res.Add("calls", int64(n))
+	res.Add("calls_concurrent", int64(n))
+	res.Add("requests_seen", int64(len(reqs)))
+	res.Add("limiter_waits_seen", int64(len(waits)))
+	res.SetMax("concurrent_callers", int64(n))
+	res.Put("endpoints", ep.name)
+	scen := fmt.Sprintf("%d identical concurrent calls", n)
+	if cancelOne {
+		scen += ", first caller's context cancelled in flight"
+	}
+	obs := c20Obs{Endpoint: ep.name, Base: e.base.name, Via: e.via, Args: a, Opts: o, Limiter: "present", Resp: c20Resp{Status: 200, Size: size, Body: "xml"},
+		Requests: reqs, Waits: waits, Doc: apixml.Describe(doc), Fault: scen}
+	if len(obs.Args.IDs) > 8 {
+		obs.Args.IDs = obs.Args.IDs[:8]
+	}
+	for _, rq := range obs.Requests {
+		if len(rq.RawQuery) > 300 {
+			obs.Requests = nil // (length arguments: keep the replay file small)
+			break
+		}
+	}
+	if res.Sample == nil {
+		res.Sample = obs
+	}
+	viol := func(k, format string, args ...any) { res.Violate(k, fmt.Sprintf(format, args...), obs) }
+	res.Eval(fmt.Sprintf("%s|%s|%s|concurrent:%d/cancel:%v", ep.name, e.base.name, e.via, n, cancelOne))
+
+	// (the cancelled caller may have been cancelled before it got as far as its Wait or GET)
+	live := n
+	if cancelOne {
+		live = n - 1
+	}
+	if len(reqs) > n || len(reqs) < live {
+		viol(key("request-count"), "%s: the server saw %d GETs, want one per call", scen, len(reqs))
+	}
+	if len(waits) < len(reqs) || len(waits) < live {
+		viol(key("limiter-count"), "%s: %d Waits on the limiter for %d calls and %d GETs", scen, len(waits), n, len(reqs))
+	}
+	for i := range reqs {
+		if i < len(waits) && waits[i] > reqs[i].Seq {
+			viol(key("limiter-order"), "%s: GET number %d (sequence %d) was preceded by only %d Wait(s)", scen, i+1, reqs[i].Seq, i)
+			break
+		}
+	}
+	w := eq.Dump(c20Norm(want))
+	for i, out := range outs {
+		if i == 0 && cancelOne {
+			if out.err != nil && !c20IsEmpty(out.got) {
+				viol(key("data-with-error"), "%s: the cancelled caller got an error (%v) together with data", scen, out.err)
+			}
+			continue
+		}
+		if out.err != nil {
+			viol(key("error"), "%s: caller %d (context alive, status 200) got error %v", scen, i, out.err)
+			continue
+		}
+		if g := eq.Dump(c20Norm(out.got)); g != w {
+			viol(key("data"), "%s: caller %d: returned value differs from what the server wrote: %s", scen, i, eq.Diff(w, g))
+		}
+	}
+}
+
 // c20Faults are the transport-level behaviours: client-side errors injected by the round
 // tripper and server-side hang-ups.
 func c20Faults() []string { return append(append([]string{}, srv.FaultModes...), srv.HangupModes...) }
@@ -1264,6 +1406,13 @@ func (e *c20Env) call(ep *c20EP, a c20Args, o c20Opts, limMode string, rs c20Res
 	reqs := e.api.Take()
 	waits := e.lim.Take()
 	res.Add("roundtrips_seen", int64(len(e.ft.Take())))
+	for _, rq := range reqs {
+		if rq.Coding != "" {
+			res.Add("answers_content_coded", 1)
+			res.Put("content_codings_answered", rq.Coding)
+		}
+		res.Put("accept_encodings_seen", rq.AcceptEncoding)
+	}
 	res.Event(int64(len(reqs) + len(waits)))
 	res.Add("calls", 1)
 	res.Add("requests_seen", int64(len(reqs)))
@@ -1508,7 +1657,7 @@ func c20Exec(c fw.Case) *fw.Result {
 			base = b
 		}
 	}
-	env := c20NewEnv(res, base, c.Str("via"), c.Seed, c.Kind == "faults")
+	env := c20NewEnv(res, base, c.Str("via"), c.Seed, c.Kind == "faults", c.Int("nocomp") == 1)
 	defer env.close()
 	resps := c20Responses()
 	do := func(cb c20Combo) {
@@ -1595,6 +1744,22 @@ func c20Exec(c fw.Case) *fw.Result {
 				k++
 			}
 		}
+		// every 200 answer size under every content-coding policy
+		for _, m := range c20Metas {
+			if m.m.Coding == "" {
+				continue
+			}
+			for _, n := range []int{0, 1, 2, 5} {
+				env.call(ep, ep.args[k%len(ep.args)], ep.opts[0], c20LimiterModes[k%2], c20Resp{Status: 200, Size: n, Body: "xml", Meta: m.name})
+				k++
+			}
+		}
+	case "concurrent":
+		for _, n := range []int{2, 4, 8} {
+			for _, cancelOne := range []bool{false, true} {
+				env.concurrentCalls(ep, int(c.Int("arg"))%len(ep.args), n, cancelOne)
+			}
+		}
 	case "big":
 		env.bigCall(ep, ep.args[0], ep.opts[0], c20LimiterModes[c.Int("lim")], c.Int("bytes"))
 	case "shapes":
@@ -1624,6 +1789,24 @@ func c20Cases(tier string, seed uint64) []fw.Case {
 	mk := func(kind, ep, base, via string, i int, calls int64) fw.Case {
 		return fw.Case{Kind: kind, Seed: gen.Sub(seed, "c20/"+kind, i), S: map[string]string{"ep": ep, "base": base, "via": via}, P: map[string]int64{"calls": calls}}
 	}
+	// concurrent identical calls: per endpoint reps cases (base, access path, argument
+	// rotating); the first nrace endpoints also under the race detector
+	conc := func(eps []c20EP, reps, nrace int) {
+		k := 0
+		for i, ep := range eps {
+			for j := 0; j < reps; j++ {
+				c := mk("concurrent", ep.name, c20Bases[k%len(c20Bases)].name, c20Vias[k%len(c20Vias)], k, 0)
+				c.P["arg"] = int64(k)
+				cs = append(cs, c)
+				if j == 0 && i < nrace {
+					c2 := mk("concurrent", ep.name, c20Bases[(k+1)%len(c20Bases)].name, c20Vias[(k+1)%len(c20Vias)], k, 0)
+					c2.P["arg"], c2.Variant = int64(k+1), "race"
+					cs = append(cs, c2)
+				}
+				k++
+			}
+		}
+	}
 	bigs := func(sizes ...int64) {
 		k := 0
 		for _, name := range []string{"nodes", "map", "changeset-download", "node-history"} {
@@ -1650,13 +1833,16 @@ func c20Cases(tier string, seed uint64) []fw.Case {
 			for _, b := range c20Bases {
 				for _, v := range c20Vias {
 					cs = append(cs, mk("full", ep.name, b.name, v, i, 0))
-					cs = append(cs, mk("faults", ep.name, b.name, v, i, 0))
+					fc := mk("faults", ep.name, b.name, v, i, 0)
+					fc.P["nocomp"] = int64(i % 2)
+					cs = append(cs, fc)
 					i++
 				}
 			}
 		}
 		shapes(100, 6)
 		bigs(8<<20-64<<10, 8<<20+64<<10, 16<<20+1, 40<<20)
+		conc(eps, len(c20Bases)*len(c20Vias), len(eps))
 		return fw.Number(cs)
 	}
 	// quick: every endpoint x every status (and size) once, under rotating base / via ...
@@ -1676,9 +1862,12 @@ func c20Cases(tier string, seed uint64) []fw.Case {
 	}
 	// ... every transport fault on every endpoint, and the answer-shape repetition
 	for i, ep := range eps {
-		cs = append(cs, mk("faults", ep.name, c20Bases[(i+2)%len(c20Bases)].name, c20Vias[(i+1)%len(c20Vias)], i, 0))
+		c := mk("faults", ep.name, c20Bases[(i+2)%len(c20Bases)].name, c20Vias[(i+1)%len(c20Vias)], i, 0)
+		c.P["nocomp"] = int64(i % 2) // every other case: transport with DisableCompression
+		cs = append(cs, c)
 	}
 	shapes(12, 1)
+	conc(eps, 1, 4)
 	// ... a few big answers (one size per big-answer endpoint, staggered)
 	for i, name := range []string{"nodes", "map", "changeset-download"} {
 		c := mk("big", name, c20Bases[i%len(c20Bases)].name, c20Vias[i%len(c20Vias)], i, 0)
@@ -1706,7 +1895,8 @@ func init() {
 			"x limiter (absent, present, failing) x response (200 with 0/1/2/5 elements, 200 truncated, 204, and 400 403 404 409 410 414 429 500 503 each with an XML decoy body and a text body). " +
 			"thorough enumerates the whole product (one case per endpoint x base x access path, one httptest server per case); quick runs one sweep per endpoint over every response and limiter mode, one URL-length ladder per URL-growing endpoint (every length x limiter absent/present x 200 with 1 and 5 elements and a served 414) plus 60 PRNG-chosen slices of 32 calls. " +
 			"Transport faults (every endpoint x {round tripper returning EOF / unexpected EOF / ECONNRESET / EPIPE / ECONNREFUSED / timeout, first attempt only or always; server closing the connection before the status line, inside the header, inside the body} x limiter absent/present; connections not reused) are asserted on the number of RoundTrip calls, the limiter and 'an error, no data' only. In the same cases every non-200 status is also served with intact status line and headers but a body that breaks (Content-Length beyond what is sent, chunked without the last chunk; XML decoy or text) and judged by the ordinary status oracle. Answer-shape repetition: changeset-download / map / way-full / relation-full with 2, 3, 5, 9 elements over and over (download: one block per element with alternating actions, random runs, grouped, empty blocks). " +
-			"A signature is endpoint|options|base|access|limiter|status/body/size (or fault:<mode>); distinct_nontrivial counts distinct signatures.",
+			"Content coding: the server compresses only with a coding the request's Accept-Encoding offers (gzip, or deflate = zlib format, by a gzip-first or deflate-first policy), on rotating ordinary calls and on every endpoint x 200 sizes x policy, half of those cases with a DisableCompression transport. Concurrent identical calls: 2, 4, 8 goroutines issue the same call on one datasource while the server holds the requests until all are in flight; one GET and one preceding Wait per call, every caller gets the elements; variant with the first caller's context cancelled in flight (plain build, some cases under the race detector). " +
+			"A signature is endpoint|options|base|access|limiter|status/body/size (or fault:<mode>, big:<MiB>, concurrent:<n>); distinct_nontrivial counts distinct signatures.",
 		Assumptions: []string{
 			"query strings are compared as parsed parameter sets (own parser); a trailing '?' or '&' and parameter order are insignificant; multi-fetch id lists are compared as sets",
 			"bbox components are compared numerically: a deviation above 1e-6 is class 'bbox' (wrong box); the library renders six decimals and the statement promises no decimal precision, so smaller deviations are accepted",
@@ -1718,12 +1908,17 @@ func init() {
 			"the multi-fetch functions of this library take plain ids (no version suffix form such as 2v3 exists in its API), so only the plain form is enumerated",
 			"transport faults: the statement lists statuses, not transport errors, so only the RoundTrip count (exactly one GET asked of the http.Client), the limiter (a Wait before the first GET, never more GETs than Waits) and 'some error, no data' are asserted; a body cut in mid-air asserts no error at all, only 'no data next to an error'; connection reuse is off in these cases because net/http itself replays a GET on a reused connection that dies before the first response byte",
 			"a non-200 answer whose status line and headers arrived but whose body breaks off has been received with that status: its typed error is asserted as for a complete answer (the body of an error answer carries nothing the call returns); a stalled body (wall-clock) is not generated",
+			"concurrent identical calls: the sleeps while waiting for all requests to arrive only give the calls time to overlap; the verdict is in the counts (GETs == calls, k-th GET preceded by k Waits, every live caller gets the elements). The caller whose context is cancelled may or may not have issued its GET; only 'no data next to an error' is asserted for it",
+			"a data race with a library frame during concurrent calls on one Datasource counts as a violation (the Datasource's Limiter is documented for 'many concurrent requests')",
 			"in an osm.Change an action (create/modify/delete) without elements compares equal whether nil or an empty document",
 			"Wait must be called at least once before the request (sequence numbers of one shared atomic counter); the number of Wait calls is not asserted",
 		},
-		Cases:      c20Cases,
-		Exec:       c20Exec,
-		Workers:    12,
-		Exhaustive: func(tier string) bool { return tier == "thorough" },
+		Cases:   c20Cases,
+		Exec:    c20Exec,
+		Workers: 12,
+		// the Datasource is documented for concurrent use (its Limiter "when making many concurrent
+		// requests"): a race report with a library frame in the concurrent cases is a violation
+		RaceIsViolation: true,
+		Exhaustive:      func(tier string) bool { return tier == "thorough" },
 	})
 }
